@@ -71,14 +71,23 @@ func (s *FuzzServer) ListenAndServe(ctx context.Context) error {
 	}
 }
 
+// session is what the target remembers about one connection.
+type session struct {
+	// shaken is set once the PeerInfo exchange has taken place. Until then no
+	// other message is served.
+	shaken bool
+}
+
 func (s *FuzzServer) serve(ctx context.Context, conn net.Conn) {
 	defer conn.Close()
+
+	var sess session
 
 	for {
 		if ctx.Err() != nil {
 			return
 		}
-		if err := s.serveOneRequest(conn); err != nil {
+		if err := s.serveOneRequest(conn, &sess); err != nil {
 			if err == io.EOF {
 				logger.Debugf("[fuzz-server] connection closed")
 				return
@@ -89,7 +98,7 @@ func (s *FuzzServer) serve(ctx context.Context, conn net.Conn) {
 	}
 }
 
-func (s *FuzzServer) serveOneRequest(conn net.Conn) (err error) {
+func (s *FuzzServer) serveOneRequest(conn net.Conn, sess *session) (err error) {
 	defer func() {
 		if r := recover(); r != nil {
 			logger.Errorf("[fuzz-server] panic: %v", r)
@@ -103,9 +112,22 @@ func (s *FuzzServer) serveOneRequest(conn net.Conn) (err error) {
 		return err
 	}
 
+	// A session starts with the PeerInfo exchange, once. A request that arrives
+	// before it, or a second PeerInfo, is a protocol violation: nothing is
+	// executed and the connection is dropped.
+	if !sess.shaken && req.Type != MessageType_PeerInfo {
+		return fmt.Errorf("message type %v before the PeerInfo handshake", req.Type)
+	}
+	if sess.shaken && req.Type == MessageType_PeerInfo {
+		return fmt.Errorf("second PeerInfo in one session")
+	}
+
 	switch req.Type {
 	case MessageType_PeerInfo:
 		resp, err = s.handlePeerInfo(req)
+		if err == nil {
+			sess.shaken = true
+		}
 	case MessageType_ImportBlock:
 		resp, err = s.handleImportBlock(req)
 	case MessageType_SetState:
